@@ -23,7 +23,8 @@ CLAIMED = {
                 "swapped, chunked and concatenated with the same sample-space operands (fold, iter_fold, ChunksIter); the "
                 "training view is the complement of the validation block; the fold size derives from a sample count and ChunksIter cuts block i as rows [i*size, (i+1)*size) and stops after "
                 "len/size blocks; "
-                "cross_validate accumulates once per (fold, model) and divides by k; fit/eval errors propagate. Not decided: "
+                "cross_validate accumulates once per (fold, model) and divides by k; fit/eval errors propagate. The row widths that cut the raw buffers (ntargets, nfeatures) depend on the target / record arrays on every path, never on the name lists; fold's chunk lists cover every sample (a truncated chunk sequence needs the left-over rows put back under the test 'rows are left over'). "
+            "Not decided: "
                 "numeric block boundaries for particular (n,k), multiset equality of rows.",
         "design_ref": "DESIGN.md section 4, C01",
         "note": "Trusted: rustc resolution/typeck, the fact dump, documented semantics of slice::split_at_mut/swap_with_slice and ndarray selection methods.",
@@ -40,6 +41,7 @@ CLAIMED["C02"] = {
             "filter pushes record, target, weight and counts under one condition; per-feature/per-target iteration attaches the "
             "name at the collapsed index; the raw-buffer split of owned data is dominated by a standard-layout test; every index vector handed to select(Axis(a), ..) is a permutation of, or draws "
             "from, exactly 0..extent(a), and the ratio split point is ceil(nsamples as f32 * ratio). Raw memory-order buffers (as_slice_memory_order, into_raw_vec, as_ptr) anywhere in the dataset and composing code are used by position only behind an is_standard_layout() test (or on arrays created in the same function), and exact-chunk iteration never drops a remainder. "
+            "Records::nsamples / nfeatures of an array are axis extents on every path (a (0, k) matrix has k features); binary_search never runs directly on a caller-supplied slice. "
             "Not decided: multiset equality of rows as values.",
     "design_ref": "DESIGN.md section 4, C02",
     "note": "Trusted: rustc resolution/typeck, the fact dump, documented semantics of ndarray selection methods and Vec::split_off.",
@@ -68,6 +70,8 @@ CLAIMED["C04"] = {
             "builder must be dominated by the check and return its error; checked types must not be constructible from "
             "caller-supplied values outside the guard. predict_inplace never reads what the caller's buffer held and writes every element on every path (no compound assignment, no BLAS-style accumulation with beta != 0, no loop body that leaves an element unwritten), so the in-place form agrees with the allocating forms for any buffer. "
             "Range tests are evaluated on the parameter itself, not on a narrowed copy (to_f32, as f32, to integer). "
+            "No computation on a predict path branches on the number of rows of the batch (other than an exit); required trait methods called on a generic Self are followed into every implementation; the multi-class incumbent label is a member's label from the start. "
+            "Builder methods store their arguments unchanged (no clamp / filter / rounding / arithmetic between argument and field), and builder methods that rebuild the parameter struct (with_rng) carry every field over from self. "
             "Not decided: behaviour of training on valid parameters.",
     "design_ref": "DESIGN.md section 4, C04",
     "note": "Trusted: rustc resolution/typeck, the fact dump, the documented range table frozen in rules/c04.py (one source reference per row). NaN/infinite parameter values are outside the claim, as in the property.",
@@ -83,6 +87,7 @@ CLAIMED["C07"] = {
             "intersected with linfa's own post-filter; a homogeneity-degree (dimensional) analysis of the four provided metrics shows "
             "`distance` of degree 1 in the coordinate differences on every branch and rdistance / rdist_to_dist / dist_to_rdist "
             "consistent with one reduced degree (a squared distance returned as a distance is degree 2); no query answers Ok before its dimension test. Raw memory-order buffers of the stored batch are used by position only behind a standard-layout test. "
+            "A ball-tree node's radius is computed over every point of the node; rdistance overrides that delegate to another metric inherit that metric's reduced degree, and exponents that are truncated copies of the metric's exponent are rejected; coordinate differences carry the unit of distances. "
             "Not decided: geometric sufficiency of pruning bounds, k-NN ties.",
     "design_ref": "DESIGN.md section 4, C07",
     "note": "Trusted: rustc resolution/typeck, the fact dump (also of the locked kdtree dependency), consistency of each metric's four Distance methods.",
@@ -97,6 +102,7 @@ CLAIMED["C08"] = {
             "within_range (documented as unordered) are never used by rank without a sort; a DBSCAN seed is skipped only when already labelled or when its neighbour count is "
             "below min_points; OPTICS inserts a sample into `processed` in the same step in which it appends it to the ordering. Independence from the index kind further "
             "relies on C07. OPTICS picks the next seed from a canonically ordered list (a total sort on the indices before the pick, or an index tie-break), so ties in reachability do not expose the neighbour index's order; the radius relation of the three index kinds (C07) is checked here too. "
+            "The DBSCAN scan over the samples is never left early; OPTICS collects seeds only from a sample it has already listed; the unit rule of C07 runs here too (a coordinate pre-filter compared with a reduced radius). "
             "Not decided: OPTICS reachability values, border-point labels.",
     "design_ref": "DESIGN.md section 4, C08",
     "note": "Trusted: rustc resolution/typeck, the fact dump.",
@@ -111,6 +117,7 @@ CLAIMED["C09"] = {
             "state); the buffers behind inertia and counts were filled from the centroid matrix that is returned, with no "
             "reassignment in between on any path; every call of the scan or of the update helpers passes the model's / parameter "
             "set's own metric; an initialiser that returns a zero-allocated centroid matrix fills it in loops without early exit. A best-of-n loop that saves state when a candidate beats the incumbent also updates the incumbent (fit_with's initialisation candidates included); exact-chunk iteration over per-sample buffers never drops a remainder and raw buffers are used by position only behind a layout test. "
+            "A distance scan over the centroids is left early only on a distance of exactly zero; every model literal a fit path returns takes cluster_count from a computed assignment; the metric's degree rule of C07 runs here too. "
             "Not decided: cost monotonicity, bounding box, numeric inertia values.",
     "design_ref": "DESIGN.md section 4, C09",
     "note": "Trusted: rustc resolution/typeck, the fact dump, Distance::rdistance being the reduced distance of the configured metric.",
@@ -127,6 +134,7 @@ CLAIMED["C10"] = {
             "means and the precision factors (a prediction from the unweighted component densities is not one of maximal probability); the empty-component test "
             "reads the raw responsibility masses and the log-sum-exp shifts every row by its own maximum. "
             "The triangular factor stored in precisions_chol (writer) and its uses in compute_precisions_full and in the Mahalanobis term (readers) agree on its orientation - transposition parities read from the three sites; the best-of-n-restarts incumbent is updated with the state it guards. "
+            "reg_covar is added to the covariance diagonal after the normalisation by the component mass (nothing rescales the block afterwards). "
             "Not decided: positive definiteness, weights summing to one.",
     "design_ref": "DESIGN.md section 4, C10",
     "note": "Trusted: rustc resolution/typeck, the fact dump.",
@@ -158,6 +166,7 @@ CLAIMED["C16"] = {
             "test of that divisor; LinearScaler::transform applies only affine per-element arithmetic (no clamp/min/max/abs, no "
             "branch on element values), so it is the fitted affine map on unseen rows too; every running column extremum starts from the identity element "
             "of its own operation. No field of a fitted scaler/whitener is computed from another stored field that is mutated before the model is built; raw buffers are used by position only behind a layout test. "
+            "A builder call that keeps a part only on some path (conditional reset of the weights) counts as dropping it. "
             "Not decided: achieved means, variances, covariances.",
     "design_ref": "DESIGN.md section 4, C16",
     "note": "Trusted: rustc resolution/typeck, the fact dump. Divisions by singular values in the whiteners are outside the rule (the property claims whitening on full-rank data only).",
@@ -202,6 +211,7 @@ CLAIMED["C14"] = {
             "mixing the child impurities divides by a total of sample weights (not a sample count); the records are read only "
             "through axis-aware accessors (no raw memory-order buffer without a layout test); the relative importances are a "
             "sequence divided by its own sum. Every weight_for(i) receives a row index (an enumerate() index taken before any filter/skip/rev of the sample sequence); gini and entropy compare a class weight with zero only (thresholds apply to proportions: scale invariance in the sample weights). "
+            "A filtered sample sequence is never zipped with a per-sample container walked from its start; the arg-max over class weights compares them exactly (no rounding, integer conversion or tolerance); DecisionTreeParams' builder methods store the limits exactly as given. "
             "Not decided: impurity arithmetic, leaf majorities, importances.",
     "design_ref": "DESIGN.md section 4, C14",
     "note": "Trusted: rustc resolution/typeck, the fact dump.",
@@ -218,6 +228,7 @@ CLAIMED["C19"] = {
             "serialised guard that is raised wherever a function is installed and checked first by every public entry of the fitted "
             "vectorisers. Holds for every "
             "value of every such type. In crates with a serialised regex no RegexBuilder option is set, so every compiled expression is determined by the pattern text that is serialised. "
+            "`deserialize_with` adapters are found through the nested __DeserializeWith impls of the generated visitors. "
             "Not decided: bit-level behaviour of third-party serialisers.",
     "design_ref": "DESIGN.md section 4, C19",
     "note": "Trusted: serde_derive's expansion (the pinned version's output is what is analysed), serde impls of std/ndarray/sprs/rand_xoshiro/serde_regex, the format crate.",
@@ -231,7 +242,8 @@ CLAIMED["C20"] = {
             "containers, a sort that is total on the unique key, an arg-extremum whose comparator falls back on the key); no "
             "entropy source is called outside the exclusions the property names; every RNG is seeded from a literal or a "
             "caller-supplied seed; every rayon construct writes only through its own per-element parameters and performs no "
-            "parallel float reduction. Not decided: floating-point identity across machines, third-party internals.",
+            "parallel float reduction. A comparator that decides ties through arithmetic (tolerance bands, rounded keys) or through an unread local closure is not accepted as total; rayon constructs with per-split state (map_init & co.) must not create generators or counters in that state; Labels::labels no longer hands hash order to callers (allow-list entry removed). "
+            "Not decided: floating-point identity across machines, third-party internals.",
     "design_ref": "DESIGN.md section 4, C20",
     "note": "Trusted: rustc resolution/typeck, the fact dump; third-party crates draw entropy only through the listed APIs. Allow-list entries are single symbols with a reason (rules/c20.py).",
     "technique": _T + ": order/entropy/schedule taint classification of every unordered source to its consumer",
